@@ -788,7 +788,8 @@ ALL_TAGS = ["square_clustering", "bfs_equal_size_partitions(1)", "bfs_equal_size
             "average_clustering", "transitivity", "triangles", "generalized_degree", "connected_components",
             "weakly_connected_components", "strongly_connected_components", "eigenvector_centrality", "degree_centrality",
             "dijkstra::all_pairs", "modularity(components)", "breadth_first_search", "closeness_centrality",
-            "betweenness_centrality", "node_connected_component"]
+            "betweenness_centrality", "node_connected_component", "dijkstra::all_pairs(target)",
+            "dijkstra::multi_source(all paths)", "dijkstra::multi_source(first_only, distances)"]
 
 FAMS = ["path", "cycle", "complete", "star", "circ2", "grid", "cliques", "rand", "hubtwin", "hubtwin_dir", "w5", "mring", "bigdir"]
 WTS = [0.1, 0.2, 0.3]
@@ -846,8 +847,12 @@ class C17Prop(CommProp):
                     if (e[0], e[1]) not in seen_b:
                         seen_b.add((e[0], e[1]))
                         edges_c.append(e)
-                cases.append({"id": "r%d" % i, "spec": (1, 0, 1, 0, 0, 0), "nodes": [(x, None) for x in r.shuffle(list(range(nb)))],
+                nodes_b = [(x, None) for x in r.shuffle(list(range(nb)))]
+                cases.append({"id": "r%d" % i, "spec": (1, 0, 1, 0, 0, 0), "nodes": nodes_b,
                               "edges": edges_c, "calls": [("repro_cent", 1)]})
+                # every algorithm on the same graph: above 20 nodes the rayon arms run under pools 1 / 4 / 16
+                cases.append({"id": "a%d" % i, "spec": (1, 0, 1, 0, 0, 0), "nodes": nodes_b,
+                              "edges": edges_c, "calls": [("repro_all", 1)]})
                 continue
             multi = 0
             if kind == "mring":
